@@ -57,6 +57,11 @@ TABLE = {
             "Trusted: CrossHair's models of dict/str/contextmanager. Two option keys stand for all (guarded by an AST check that option.py names no specific key). Unknown option names: a fully "
             "symbolic str (len<=4) is usually 'Not confirmed' within the budget and is then reported inconclusive; the claim for unknown names then rests on the concrete near-miss names.",
             "CrossHair symbolic execution (z3) of option.py over bounded call histories"),
+    "C19": ("model_checking", "E1 SymObj",
+            "Symbolic execution of lead_exponent/lead_coefficient (all graded/reverse flags), isconstant, tonumpy, todict, decompose, set_dimensions (targets 1..5), sortable_proxy and "
+            "argmax/argmin/amax/amin without axis (all sort options) with symbolic coefficients incl. zero elements, equal leading terms and negative leading coefficients; oracle = exact "
+            "model leading term under an independent implementation of the monomial order; the proxy must be a permutation consistent with (leading exponent, leading coefficient).",
+            E1_NOTE, E1_TECH),
 }
 
 
